@@ -161,15 +161,25 @@ def check_region_cells(vt, top, left, exp_rows, ctxinfo, site, inv="frame_not_in
                                           expected=repr(exp), top=top, left=left), site)
 
 
-def terminal_restored(vt, tty, entry, visible_before, ctxinfo, site, after="return"):
+def terminal_restored(vt, tty, entry, visible_before, ctxinfo, site, after="return",
+                      strings_only=False):
+    """``strings_only``: after an injected interrupt only an unterminated control *string*
+    (APC/OSC/DCS: the graphics commands) or a pending chunked transfer is a violation - a cut
+    CSI/ESC swallows at most one sequence and is not among the things C07 lists."""
     check(vt.cursor_visible == visible_before, "cursor_visibility_not_restored",
           lambda: dict(ctxinfo, visible=vt.cursor_visible, after=after), site)
     check(vt.sgr_default(), "text_attributes_not_reset",
           lambda: dict(ctxinfo, fg=vt.fg, bg=vt.bg, attrs=sorted(map(str, vt.attrs)),
                        after=after), site)
-    check(vt.in_ground(), "terminal_left_inside_control_sequence",
-          lambda: dict(ctxinfo, state=vt.state, pending_kitty=vt.k_pending is not None,
-                       after=after), site)
+    if strings_only:
+        check(vt.state not in (3, 4, 5, 6) and vt.k_pending is None,
+              "graphics_command_left_unterminated",
+              lambda: dict(ctxinfo, state=vt.state, pending_kitty=vt.k_pending is not None,
+                           after=after), site)
+    else:
+        check(vt.in_ground(), "terminal_left_inside_control_sequence",
+              lambda: dict(ctxinfo, state=vt.state, pending_kitty=vt.k_pending is not None,
+                           after=after), site)
     check(not vt.synced, "synchronized_update_left_open", lambda: dict(ctxinfo), site)
     check(tty.attrs == entry, "terminal_attributes_not_restored",
           lambda: dict(ctxinfo, lflag_entry=entry[3], lflag_now=tty.attrs[3], after=after), site)
